@@ -80,7 +80,10 @@ def check(run):
                      '(C01/C02/C05 speak about it; frames whose decoding differs from libwebp are counted in payload_decode_differs_from_libwebp)',
                      'Model.Anim is a hand model of composite_frame/read_frame/reset_animation/read_image, tied by correspondence through the public '
                      'API and hook verif::composite_frame; byte offsets of ANMF chunks abstracted to frame indices',
-                     'canvas bound width*height*4 < 2^32 (defect F11 is outside this check)'])
+                     'canvases of 2^32 bytes or more: covered by the theorems (Model.Anim mirrors fix F11: usize::checked_mul, ImageTooLarge when the product '
+                     'does not fit; Proofs/Container_fits.wf_canvas_fits shows that branch unreachable for a well-formed file) but by no correspondence '
+                     'case -- the harness allocates no canvas above 40x40, so a return of the u32 arithmetic would be seen by the F11 note in '
+                     'known_findings.txt only through reading, not by this check'])
 
 
 def replay(run, path):
